@@ -224,7 +224,60 @@ def graph_readonly(text):
     return None
 
 
+def corner_case(kind, seed):
+    """read-only operations on programs from two corners the random programs do not reach: (a) a {placeholder}
+    inside a target/type option, instantiated with a value passed for it as well; (b) register expressions as
+    ELEMENTS of a list-valued keyword argument, converted to a graph and matched"""
+    from blackbird.utils import to_DiGraph, match_template
+    rng = random.Random(seed)
+    if kind == "option-placeholder":
+        text = ("name t\nversion 1.0\ntarget X8 (shots={shots}, a=[{shots}, 1])\ntype foo (n={n_}, m=2)\n\n"
+                "Dgate({a}, 0.5) | 0\nRgate({a}*2) | 1\n")
+        kws = [{"a": 0.5}, {"a": 0.25, "shots": 100, "n_": 3}, {"a": 1.5, "shots": 7}]
+    else:
+        text = ("name t\nversion 1.0\n\nMeasureX | 0\nMeasureHomodyne(select=[q0, 2*q0, 1], phi=q0/2) | 1\n"
+                "Dgate({a}, l=[q0 + 1, {a}, 0.5]) | 2\n")
+        kws = [{"a": 0.5}, {"a": 0.75}]
+    r = core.impl_loads(text)
+    if r[0] != "ok":
+        return "refused: %r" % (r[1],)
+    p = r[1]
+    del _CHANGED_BY_DUMPS[:]
+    live = [("template", p, snapshot(p))]
+    for step in range(8):
+        k = rng.randrange(4)
+        what = ""
+        with core.quiet():
+            try:
+                if k == 0:
+                    what = "template call %s" % (kws[step % len(kws)],)
+                    q = p(**kws[step % len(kws)])
+                    live.append(("instance", q, snapshot(q)))
+                elif k == 1:
+                    what = "to_DiGraph"
+                    to_DiGraph(rng.choice(live)[1])
+                elif k == 2:
+                    what = "match_template"
+                    match_template(p, live[-1][1])
+                else:
+                    what = "dumps"
+                    import blackbird
+                    blackbird.dumps(rng.choice(live)[1])
+            except Exception:  # noqa: BLE001
+                pass
+        for i, (kd, q, snap) in enumerate(live):
+            now = snapshot(q)
+            if now != snap:
+                return "step %d (%s) changed %s %d: before %s, after %s" % (
+                    step, what, kd, i, common.short(repr(snap), 300), common.short(repr(now), 300))
+        if _CHANGED_BY_DUMPS:
+            return "step %d (%s): %s" % (step, what, _CHANGED_BY_DUMPS[0])
+    return None
+
+
 def replay(ctx, data):
+    if data.get("kind") == "corner":
+        return corner_case(data["what"], data["seed"])
     if data.get("kind") == "graph_readonly":
         return graph_readonly(data["text"])
     if data.get("kind") == "sequence":
@@ -304,4 +357,12 @@ def run(ctx):
         if msg:
             ctx.violation("read-only operation: " + msg, {"kind": "sequence", "text": text, "info": info,
                                                          "seq_seed": seq_seed, "length": ln})
+    for k in range(ctx.n(12, 100)):
+        what = ("option-placeholder", "registers-in-list-argument")[k % 2]
+        sd = ctx.rng.randrange(1 << 30)
+        ctx.count("corner:" + what)
+        ctx.case(("corner", what, sd), nontrivial=True)
+        msg = corner_case(what, sd)
+        if msg:
+            ctx.violation("read-only operation: " + msg, {"kind": "corner", "what": what, "seed": sd})
     readonly_corr(ctx, texts)
